@@ -168,6 +168,10 @@ func TestC20(t *testing.T) {
 
 func TestC20Replay(t *testing.T) {
 	vstat.Replay(t, "C20", func(raw []byte) error {
+		var sc c20StressCase // a case of the thorough-tier stress stage
+		if err := json.Unmarshal(raw, &sc); err == nil && sc.Accepts > 0 {
+			return c20StressRun(sc, vstat.New(nil, "C20", ""))
+		}
 		var c c20Case
 		if err := json.Unmarshal(raw, &c); err != nil {
 			return err
